@@ -8,8 +8,8 @@
 (* ww of waiting writers.  One action per lock operation / critical        *)
 (* section of the code:                                                    *)
 (*                                                                         *)
-(*  reader call   rlock -> check -> (use | runlock -> lock -> recheck+load *)
-(*                -> unlock -> rlock2 -> recheck2 -> (use | fail)) ->      *)
+(*  reader call   rlock -> check -> (use | runlock -> lock -> (waited |    *)
+(*                load) -> unlock -> rlock2 -> recheck2 -> (use | fail)) -> *)
 (*                use -> work -> runlock_end                               *)
 (*  sweep/close   lock -> decide (loaded and idle: close it) -> unlock     *)
 (***************************************************************************)
@@ -67,12 +67,15 @@ Reader(p) ==
     \/ /\ RUnlock(p, "upgrade", "lockw") /\ UNCHANGED <<hdr, left, using, results>>
     \/ /\ LockWait(p, "lockw", "locka") /\ UNCHANGED <<hdr, left, using, results>>
     \/ /\ LockAcq(p, "locka", "load") /\ UNCHANGED <<hdr, left, using, results>>
-    \/ /\ pc[p] = "load"                                    \* re-check, then NewBinaryReader
-       /\ \/ /\ loaded # None \/ err
-             /\ UNCHANGED hdr
-          \/ /\ loaded = None /\ ~err
-             /\ \/ loaded' = nextGen /\ nextGen' = nextGen + 1 /\ UNCHANGED <<err, closed>>
-                \/ LoadMayFail /\ err' = TRUE /\ UNCHANGED <<loaded, nextGen, closed>>
+    \/ /\ pc[p] = "load" /\ (loaded # None \/ err)          \* WAITER path: somebody else loaded (or failed)
+       /\ Goto(p, "waited")                                 \* while this call waited for the write lock;
+       /\ UNCHANGED <<mtx, hdr, left, using, results>>      \* it returns without loading ...
+    \/ /\ pc[p] = "waited"                                  \* ... through the same deferred Unlock / RLock /
+       /\ Goto(p, "unlockw")                                \* re-check as the loader (an unload may land in
+       /\ UNCHANGED <<mtx, hdr, left, using, results>>      \* the gap of the waiter just as well)
+    \/ /\ pc[p] = "load" /\ loaded = None /\ ~err           \* LOADER path: NewBinaryReader
+       /\ \/ loaded' = nextGen /\ nextGen' = nextGen + 1 /\ UNCHANGED <<err, closed>>
+          \/ LoadMayFail /\ err' = TRUE /\ UNCHANGED <<loaded, nextGen, closed>>
        /\ Goto(p, "unlockw") /\ UNCHANGED <<mtx, left, using, results>>
     \/ /\ Unlock(p, "unlockw", "rlock2") /\ UNCHANGED <<hdr, left, using, results>>
     \/ /\ RLock(p, "rlock2", "recheck") /\ UNCHANGED <<hdr, left, using, results>>
